@@ -129,6 +129,41 @@ CHECKS = {
         note="n_row_combinations is tied and enumerated but has no theorem yet. At least one row and column; bounds within int16 range; float64 floor division assumed exact on generated magnitudes.",
         technique="Lean 4 theorem (Int.ediv lemmas, list induction) + differential correspondence + enumeration oracle",
         ref="§4 C12"),
+    "C14": dict(
+        text=("Theorems (Props/C14.lean): lex_of_dominance / lex_of_cert — for an objective whose absolute weights pass the "
+              "decidable dominance certificate (non-negative, equal inside a level, each strictly larger than the sum of all "
+              "weights of lower levels), and any two 0/1 configurations, the sign of the objective difference is the sign of "
+              "the level-sum difference at the highest level where they differ; equal_of_no_difference. Certificate tie: the "
+              "Lean driver evaluates the certificate on every objective vector the real select() hands to the solver, with "
+              "levels = user priority magnitudes above default magnitude 2 (non-default branch) above default magnitude 1. "
+              "Equality ties: structure after the default restructuring (cc_build), default_prios, and the objective vector "
+              "(shadow over [defaults, user priorities]) compared with the model. Oracle: pairs of feasible 0/1 configurations "
+              "ranked lexicographically by the statement's levels vs the objective values."),
+        note="The theorem is generic in the weights; that the real weights satisfy its hypothesis is decided per run by the certificate (on the generated configurators), not proved for all configurators. Boolean items only.",
+        technique="Lean 4 theorem (dominance => lexicographic order) + decidable certificate evaluated on the implementation's output + differential correspondence",
+        ref="§4 C14"),
+    "C15": dict(
+        text=("Theorems (Props/C15.lean): objective_entry / objective_length (entry at each column = weight given for that "
+              "column's id, else 0), zipKeep_mem / solve_keeps / select_keeps (returned vectors become id->value dictionaries "
+              "over exactly the kept columns: solve omits generated helper variables unless asked, select keeps only leaf "
+              "items with only_leafs), none_gives_empty, exact_solver_valid (with C02: a point of the asserted polyhedron of a "
+              "solver-safe model satisfies the model). Tie: polyhedron, objective vectors and result dictionaries of solve() / "
+              "select() compared with the model under four harness solvers (recorder with distinct values per column, exact "
+              "brute force, None, raising); oracle: the statement's clauses incl. InfeasibleError mapping."),
+        note="The built-in beta solver is never exercised (it does not terminate on some integer models); the solver is a parameter of the model.",
+        technique="Lean 4 theorem (list lemmas + C02) + differential correspondence with scripted solvers",
+        ref="§4 C15"),
+    "C18": dict(
+        text=("Theorems (Props/C18.lean): add_eq_mk (add returns the configurator built from the current rules followed by the new "
+              "one under the same id), add_keeps_id, add_refuses / add_accepts (refusal exactly when the rule's id names a "
+              "top-level rule or item), addAll_kids (any sequence of additions ends in the id-sorted union of old and new "
+              "rules, i.e. the directly constructed configurator; via uniqueness of sorted arrangements for distinct ids). "
+              "Tie: add() output compared structurally with the model; oracle: add vs direct construction observed through "
+              "structure, default prios, polyhedron + default priority vector, objectives and solutions with a recorder and "
+              "an exact solver; original snapshotted after every add."),
+        note="Refusal concerns top-level ids only (a nested leaf id is accepted), as the statement says.",
+        technique="Lean 4 theorem (sorted-permutation uniqueness) + differential correspondence + observational comparison",
+        ref="§4 C18"),
     "C19": dict(
         text=("Theorems (Props/C19.lean): satisfied_spec (all rows hold), separable_spec and separable_eq_not_satisfied (the "
               "negation), ineqSep_spec (per row: some point of the group violates it), shapes (vector -> scalar, matrix -> "
